@@ -15,9 +15,9 @@ from ..oracles import cells as OC
 
 PROP_ID = "C17"
 LEVEL = "exploration"
-RULE = "Hypothesis: source strings built from line lists x lexers x options; gutter-split output lines vs the source lines; generated raising modules rendered through Traceback vs linecache"
+RULE = "Hypothesis: source strings built from line lists x lexers x options; gutter-split output lines vs the source lines; generated raising modules (a few lines to ~20000 lines) rendered through Traceback vs the file's lines"
 ASSUMPTIONS = [
-    "sources are CRLF-free; the exactness clause is judged at a width large enough not to crop or wrap, narrow widths judge the numbers only",
+    "sources are CRLF-free; the exactness clause is judged at a width large enough not to crop or wrap; where a line is cropped (narrow console or code_width, no word wrap) the numbers only are judged; with word_wrap nothing may be lost at any width: the rows of a line joined equal the line, white space aside (wrapping breaks at and drops white space)",
     "blank lines at the very end of the code are not compared (the statement sets them aside)",
     "a line range is only given together with line numbers (the statement defines its effect only then) and ends at line >= 1",
     "with indent guides on, the guide character in leading indentation is mapped back to a space",
@@ -32,7 +32,9 @@ GUIDE = "│"
 
 def source():
     line = st.one_of(st.sampled_from(LINES), st.sampled_from(LINES), st.sampled_from(LINES), st.text(st.sampled_from("abc =(){}[]#'\".:,_1\t" + GC.WIDE[:4]), max_size=14),
-                     st.sampled_from(["\x0c", "\x0c", "# page\x0c", "a = 1\x0bb", "s = 'x\u2028y'", "# \u2029 end"]))
+                     st.sampled_from(["\x0c", "\x0c", "# page\x0c", "a = 1\x0bb", "s = 'x\u2028y'", "# \u2029 end"]),
+                     # lines whose width in cells is far from their length in characters (dense wide characters), long enough to pass a code width
+                     st.text(st.sampled_from(GC.WIDE + "ab =#'(,"), min_size=6, max_size=36))
     return st.builds(lambda lead, body, trail, nl: "\n" * lead + "\n".join(body) + "\n" * trail + ("\n" if nl else ""), st.sampled_from([0, 0, 1, 2, 3]), st.lists(line, max_size=8), st.sampled_from([0, 0, 1, 3]), st.booleans())
 
 
@@ -46,6 +48,11 @@ def expected_lines(code, tab_size):
     return lines
 
 
+def squeeze(t):
+    """Without white space (a wrapped line is broken at, and loses, white space only)."""
+    return re.sub(r"\s+", "", t)
+
+
 def strip_trailing_blank(pairs):
     while pairs and pairs[-1][-1].strip() == "":
         pairs.pop()
@@ -55,8 +62,8 @@ def strip_trailing_blank(pairs):
 class SyntaxLines(Part):
     name = "syntax"
     rule = ("sources of 0-8 lines with 0-3 leading and trailing blank lines, tabs, wide characters, with/without final newline x lexer {python, json, html, "
-            "text, unknown} x line_numbers x start_line 1..10000 x line_range (inside, straddling, beyond, start < 1) x highlight_lines x word_wrap x "
-            "code_width x indent_guides x theme x tab_size x width (wide: exact text; narrow: numbers only) x 1-3 renders of the same object, optionally made for and shown with other code first (its .code replaced afterwards); sources may contain FF/VT/U+2028/U+2029 "
+            "text, unknown}; lines include runs of 6-36 characters dense in double-width characters (cell width far from the character count) x line_numbers x start_line 1..10000 x line_range (inside, straddling, beyond, start < 1) x highlight_lines x word_wrap x "
+            "code_width 8..60 x indent_guides x theme x tab_size x width (wide: exact text; narrow or lines wider than code_width: numbers only, and with word_wrap the characters of every line - continuation rows joined, white space aside - must all be there, with or without the gutter) x 1-3 renders of the same object, optionally made for and shown with other code first (its .code replaced afterwards); sources may contain FF/VT/U+2028/U+2029 "
             "(line boundaries for str.splitlines only); non-trivial = line numbers on and (a leading "
             "blank line or a range crossing the end)")
     budget = {"quick": (8, 800), "thorough": (16, 8000)}
@@ -68,7 +75,7 @@ class SyntaxLines(Part):
             lambda code, lexer, ln, start, lr, hl, ww, cw, ig, theme, ts, narrow, rn, fp, ft, rc: {"recode": rc, "code": code, "lexer": lexer, "line_numbers": ln, "start_line": start, "line_range": lr if ln else None, "highlight": hl,
                                                                                     "word_wrap": ww, "code_width": cw, "indent_guides": ig, "theme": theme, "tab_size": ts, "narrow": narrow, "renders": rn, "from_path": fp, "fitted": ft},
             source(), st.sampled_from(LEXERS), st.sampled_from([True, True, False]), st.one_of(st.just(1), st.integers(1, 10000), st.sampled_from([9, 99, 999])), rng,
-            st.lists(st.integers(1, 12), max_size=3), st.booleans(), st.one_of(st.none(), st.none(), st.integers(20, 60)), st.booleans(), st.sampled_from(THEMES), st.sampled_from([4, 4, 8, 2]),
+            st.lists(st.integers(1, 12), max_size=3), st.booleans(), st.one_of(st.none(), st.none(), st.integers(20, 60), st.integers(8, 60)), st.booleans(), st.sampled_from(THEMES), st.sampled_from([4, 4, 8, 2]),
             st.one_of(st.none(), st.none(), st.integers(12, 30)), st.sampled_from([1, 1, 2, 3]), st.sampled_from([None, None, None, "json", "html", "py", "txt", "python"]), st.sampled_from([False, False, True]),
             # history: the object was made for (and shown with) other code first, then its .code attribute was replaced
             st.sampled_from([None, None, None, "x = 1", "a\nb\nc\n", "\n" * 12 + "z"]),
@@ -197,6 +204,14 @@ class SyntaxLines(Part):
                 if [(n, t.replace(" ", "")) for n, t in gp] != [(n, t.replace(" ", "")) for n, t in wp]:
                     ctx.violation("text", "C17/text/numbered-wrapped", "%s: characters differ" % desc)
                     return False
+            elif spec["word_wrap"]:
+                # word wrap was asked for and a line does not fit (or the console is narrow): the line continues on rows without a number, nothing of it is lost
+                gs, ws = [(n, squeeze(t)) for n, t in gp], [(n, squeeze(t)) for n, t in wp]
+                if gs != ws:
+                    bad = [(g, w) for g, w in zip(gs, ws) if g != w][:2]
+                    ctx.violation("text", "C17/text/wrapped-lost", "%s: characters of a wrapped line differ (white space aside): %r\n%s" % (desc, bad, out))
+                    return False
+                ctx.cls("wrapped-long-lines-compared")
             for n, marker, _ in got:
                 hl = n in set(spec["highlight"])
                 if (marker == "❱ ") != hl:
@@ -213,6 +228,12 @@ class SyntaxLines(Part):
                 if gl != wl:
                     lead = len(code) - len(code.lstrip("\n"))
                     ctx.violation("text", "C17/text/%s" % ("leading-blank" if lead else "plain"), "%s: lines %r, source lines %r" % (desc, gl, wl))
+                    return False
+            elif spec["word_wrap"]:
+                # without the gutter the wrapped rows cannot be attributed to lines: all the characters of the code are shown, in order
+                g, w = squeeze("".join(out_lines)), squeeze("".join(l for _, l in want))
+                if g != w:
+                    ctx.violation("text", "C17/text/plain-wrapped-lost", "%s: characters shown %r, characters of the source %r (white space aside)" % (desc, g, w))
                     return False
         return True
 
@@ -387,4 +408,138 @@ class Tracebacks(Part):
         return True
 
 
-PARTS = [SyntaxLines(), Tracebacks()]
+def pad_line(kind, n):
+    """A module-level line that is different at every line number n (so that a row under a wrong number cannot pass for the right one)."""
+    if kind == "comment":
+        return "# note %d" % n
+    if kind == "mixed":
+        return ["value_%d = %d" % (n, n), "", "# note %d" % n, "value_%d = (%d, 'v%d')" % (n, n, n), "    " if n % 8 == 3 else "value_%d = [%d]" % (n, n)][n % 5]
+    if kind == "strings":
+        # triple-quoted blocks: lines whose highlighting depends on the lines far above them
+        return ['text_%d = """' % n, "  inside %d" % n, "  more %d" % n, '""" # end %d' % n][n % 4]
+    return "value_%d = %d" % (n, n)
+
+
+class LongFileTracebacks(Part):
+    name = "traceback-long"
+    rule = ("generated modules of 2 to ~20000 lines: 0-3 leading blank lines, then padding (assignments / comments / a mix with blank lines / triple-quoted blocks, every line "
+            "different from its neighbours), a function f0 calling f1, more padding, f1 raising, padding below; the amounts of padding are drawn around the powers of ten "
+            "(where the number column widens) and up to 13000 lines, so the failing lines lie anywhere from line 2 to beyond line 10000; with/without final newline x "
+            "extra_lines {0, 1, 3, 10, 50} x word_wrap x width {100, 120, 160}; Traceback.from_exception (from the module's first frame on) rendered: for each of the module's two frames EVERY numbered row of the "
+            "frame is compared - the numbers are exactly lineno-extra_lines..lineno+extra_lines clipped to the lines that exist (blank lines at the very end of the file "
+            "optional), in order, each row shows the text of the file's line of that number, and exactly the row numbered frame.lineno carries the failing-line marker; "
+            "non-trivial = a failing line beyond line 1000 or a window clipped by the start or end of the file")
+    budget = {"quick": (16, 6), "thorough": (16, 120)}
+    chunk = 6
+
+    def strategy(self, tier):
+        amount = st.one_of(st.sampled_from([0, 1, 4, 6, 86, 94, 96, 986, 994, 996, 1990, 2000, 2010]), st.integers(0, 300), st.integers(300, 4000), st.one_of(st.sampled_from([9986, 9994]), st.integers(4000, 13000)))
+        return st.builds(lambda lead, above, between, below, kind, nl, extra, wrap, width, inner: {"lead": lead, "above": above, "between": between, "below": below, "kind": kind, "final_newline": nl,
+                                                                                                 "extra_lines": extra, "word_wrap": wrap, "width": width, "inner": inner},
+                         st.sampled_from([0, 0, 1, 3]), amount, st.one_of(st.sampled_from([0, 0, 1, 7]), st.integers(0, 300), amount), st.sampled_from([0, 0, 0, 1, 2, 5, 40, 3000]),
+                         st.sampled_from(["assign", "comment", "mixed", "strings"]), st.booleans(), st.sampled_from([3, 3, 0, 1, 10, 50]), st.booleans(), st.sampled_from([120, 100, 160]),
+                         st.integers(0, 4))
+
+    def check(self, spec, ctx):
+        from rich.console import Console
+        from rich.traceback import Traceback
+        import importlib.machinery
+
+        lines = [""] * spec["lead"]
+
+        def pad(count):
+            if spec["kind"] == "strings":
+                count -= count % 4   # whole blocks only
+                while len(lines) % 4 != 3 and count:
+                    lines.append("# align %d" % (len(lines) + 1))
+            for _ in range(count):
+                lines.append(pad_line(spec["kind"], len(lines) + 1))
+
+        pad(spec["above"])
+        lines.append("def f0(v):")
+        lines.extend("    v = v + %d  # f0 step at %d" % (k, len(lines) + 1 + k) for k in range(spec["inner"]))
+        lines.append("    return f1(v)")
+        pad(spec["between"])
+        lines.append("def f1(v):")
+        lines.extend("    v = v - %d  # f1 step at %d" % (k, len(lines) + 1 + k) for k in range(spec["inner"]))
+        lines.append("    raise ValueError('boom')")
+        pad(spec["below"])
+        text = "\n".join(lines) + ("\n" if spec["final_newline"] else "")
+        d = tempfile.mkdtemp(prefix="vp_c17l_")
+        try:
+            path = os.path.join(d, "longmod.py")
+            with open(path, "w", encoding="utf-8") as f:
+                f.write(text)
+            linecache.checkcache(path)
+            specm = importlib.util.spec_from_file_location("vp_c17_longmod", path, loader=importlib.machinery.SourceFileLoader("vp_c17_longmod", path))
+            mod = importlib.util.module_from_spec(specm)
+            specm.loader.exec_module(mod)
+            try:
+                mod.f0(1)
+            except ValueError:
+                et, ev, tb = sys.exc_info()
+            else:
+                raise AssertionError("generated module did not raise")
+            frames = []
+            t = tb
+            while t is not None:
+                if t.tb_frame.f_code.co_filename == path:
+                    frames.append((t.tb_lineno, t.tb_frame.f_code.co_name))
+                t = t.tb_next
+            assert [n for _, n in frames] == ["f0", "f1"], frames
+            extra = spec["extra_lines"]
+            # the traceback from the module's first frame on (tb itself is this check function's frame)
+            trace = sut(Traceback.from_exception, et, ev, tb.tb_next, width=spec["width"], extra_lines=extra, word_wrap=spec["word_wrap"])
+            del tb, t
+            f = io.StringIO()
+            con = sut(Console, file=f, width=spec["width"], color_system=None, legacy_windows=False, _environ={})
+            sut(con.print, trace)
+            out = f.getvalue()
+            total = len(lines)
+            last_nonblank = max(i + 1 for i, l in enumerate(lines) if l.strip())
+            blocks = re.split(r"(?m)^│ (?=\S+:\d+ in )", out)
+            desc = "module of %d lines (%d leading blank, %s padding, final newline %r), Traceback(extra_lines=%d, word_wrap=%r) at width %d" % (
+                total, spec["lead"], spec["kind"], spec["final_newline"], extra, spec["word_wrap"], spec["width"])
+            for lineno, name in frames:
+                header = "%s:%d in %s" % (path, lineno, name)
+                blk = [b for b in blocks if b.startswith(header)]
+                if not blk:
+                    ctx.violation("traceback", "C17/traceback/no-frame", "%s: no frame header %r in\n%s" % (desc, header, out[-3000:]))
+                    return
+                rows = []
+                for row in blk[0].split("\n")[1:]:
+                    m = re.match(r"^│ (❱| ) +(\d+) (.*?) *│$", row)
+                    if m:
+                        shown = m.group(3)
+                        mm = re.match(r"^[ %s]*" % GUIDE, shown)
+                        rows.append((int(m.group(2)), m.group(1), (shown[:mm.end()].replace(GUIDE, " ") + shown[mm.end():]).rstrip()))
+                want = list(range(max(1, lineno - extra), min(total, lineno + extra) + 1))
+                must = [n for n in want if n <= last_nonblank]
+                got = [n for n, _, _ in rows]
+                if got != want[:len(got)] or len(got) < len(must):
+                    ctx.violation("traceback", "C17/traceback/long-window", "%s: frame %s:%d shows the lines numbered %r, expected %r (blank lines at the end of the file optional)\n%s" % (
+                        desc, name, lineno, got, want, blk[0]))
+                    return
+                marked = [n for n, mk, _ in rows if mk == "❱"]
+                if marked != [lineno]:
+                    ctx.violation("traceback", "C17/traceback/long-marker", "%s: frame %s:%d marks the rows %r as failing\n%s" % (desc, name, lineno, marked, blk[0]))
+                    return
+                bad = [(n, shown, lines[n - 1].rstrip()) for n, _, shown in rows if shown != lines[n - 1].rstrip()]
+                if bad:
+                    at = "failing-line" if any(n == lineno for n, _, _ in bad) else "context-line"
+                    ctx.violation("traceback", "C17/traceback/long-%s" % at, "%s: frame %s:%d: row numbered %d shows %r, line %d of the file is %r\n%s" % (
+                        desc, name, lineno, bad[0][0], bad[0][1], bad[0][0], bad[0][2], blk[0]))
+                    return
+                if lineno > 1000:
+                    ctx.nontrivial = True
+                    ctx.cls("failing-line-beyond-%d" % (10000 if lineno > 10000 else 2000 if lineno > 2000 else 1000))
+                if len(want) < 2 * extra + 1:
+                    ctx.nontrivial = True
+                    ctx.cls("window-clipped-by-file")
+            ctx.cls("padding-" + spec["kind"])
+        finally:
+            shutil.rmtree(d, ignore_errors=True)
+            linecache.clearcache()
+
+
+PARTS = [SyntaxLines(), Tracebacks(), LongFileTracebacks()]
